@@ -131,9 +131,10 @@ with real signals, `harness/sigthread_harness.c`, which is what decides `_mask_s
 the real scheduler (`no_deadlock_with_signals` says a step is *possible*); the content of relayed output (which bytes
 a record consists of is C05/C06; here a record is an opaque call, and per-call atomicity of stdio is the modelled
 guarantee, not something proved of libc; glibc's exit() flushing a FILE without taking its lock can, beyond the model,
-also duplicate buffered bytes of a fully-buffered stdout — runtime behaviour, see the MANIFEST note); connect/command time-outs
-together with interrupts (the watchdog is here with its mutex discipline, `lock_order`, not with its clock: the Timed
-model of C07 is not composed); -k, pthread_create/rcmd_create failure; plain-memory races below the granularity of
+also duplicate buffered bytes of a fully-buffered stdout — runtime behaviour, see the MANIFEST note); the deadlines of connect/command
+time-outs (C07's Timed model is not composed: here a connect may fail and a read loop may be given up — `W.lockTF`, result
+DSH_FAILED — at ANY moment, and the watchdog locks, signals and unlocks whenever the schedule lets it, which
+over-approximates every deadline; all theorems above hold of that); -k, pthread_create/rcmd_create failure; plain-memory races below the granularity of
 wrapped calls (`_cancel_pending_threads`' check-then-write vs. `_update_connect_state`); exit() racing with stdio locks.
 -/
 namespace PdshVerif.Props.C20
@@ -336,6 +337,29 @@ example : (run (init .whileWait true true 1 1 false 10)
      .e (.deliver .int), .s (.sigwait .int), .s (.time 10), .s (.time 10)]).map
       (fun s => (decide (s.thd = .g ∧ s.spc = .listLock), (step s (.s .lockT)).isSome, (step s (.g .unlockT)).isSome)) =
     some (true, false, true) := by decide
+
+/-- non-vacuity, an interrupt while the watchdog times a host out (-b, N = 1, repaired shutdown): the watchdog holds
+    thd_mutex around slot 0 (it sends SIGALRM to the worker) when ^C arrives; the signals thread must wait for the
+    mutex; once it has it, host 0 — whose worker has not yet recorded the failure — is still READING and gets the
+    SIGINT; exit(1).  In the other order (last line) the worker gives its read loop up first (`lockTF`: DSH_FAILED) and
+    nothing is left to signal -/
+example :
+    (run (init .whileWait true true 1 1 true 10)
+      ([.d .createG, .d .createS, .d .lock, .d (.create 0), .d .unlock,
+        .w 0 .lockT, .w 0 .unlockT, .w 0 .connectBegin, .w 0 (.connectEnd true), .w 0 .lockT, .w 0 .time, .w 0 .unlockT,
+        .g .lockT, .e (.deliver .int), .s (.sigwait .int)])).map
+        (fun s => ((step s (.s .lockT)).isSome, (step s (.g .unlockT)).isSome)) = some (false, true) ∧
+    (run (init .whileWait true true 1 1 true 10)
+      ([.d .createG, .d .createS, .d .lock, .d (.create 0), .d .unlock,
+        .w 0 .lockT, .w 0 .unlockT, .w 0 .connectBegin, .w 0 (.connectEnd true), .w 0 .lockT, .w 0 .time, .w 0 .unlockT,
+        .g .lockT, .e (.deliver .int), .s (.sigwait .int), .g .unlockT, .s .lockT, .s (.fwd 0), .s .unlockT,
+        .s (.exit 1)])).map (fun s => (s.fwds, s.exited)) = some ([0], some 1) ∧
+    (run (init .whileWait true true 1 1 true 10)
+      ([.d .createG, .d .createS, .d .lock, .d (.create 0), .d .unlock,
+        .w 0 .lockT, .w 0 .unlockT, .w 0 .connectBegin, .w 0 (.connectEnd true), .w 0 .lockT, .w 0 .time, .w 0 .unlockT,
+        .g .lockT, .e (.deliver .int), .s (.sigwait .int), .g .unlockT, .w 0 .lockTF, .w 0 .unlockT, .s .lockT,
+        .s .unlockT, .s (.exit 1)])).map (fun s => (s.fwds, s.ts, s.exited)) = some ([], [.failed], some 1) := by
+  refine ⟨?_, ?_, ?_⟩ <;> decide
 
 /-! ## the exit status, composed with the -S loop of C08 -/
 
